@@ -116,6 +116,19 @@ func runCutsMode() {
 			}
 			stats["streams-sampled-offsets"]++
 		}
+		// the reference for C05 is what the reader returns for the COMPLETE stream: a record that the
+		// writer encoded wrongly (a round-trip defect, property C01) is not a truncation failure
+		ref := res.truths
+		if full := readAll(root, bytes.NewReader(res.stream), len(res.truths)+2); full.pan == "" && len(full.dumps) == len(res.truths) {
+			for j := range full.dumps {
+				if full.dumps[j] != res.truths[j] {
+					stats["streams-with-roundtrip-mismatch(C01, not judged here)"]++
+					note("note case %s: the complete stream reads back differently from what was written at record %d (%s): C01's business; cuts are judged against the complete reading", name, j, recgen.DiffDumps(res.truths[j], full.dumps[j], root.ty))
+					ref = full.dumps
+					break
+				}
+			}
+		}
 		inside := false
 		fails := map[string]bool{}
 		for _, k := range offsets {
@@ -153,8 +166,8 @@ func runCutsMode() {
 					bad = true
 					break
 				}
-				if d != res.truths[j] {
-					report("partial-record", "record %d differs from the written one at %s", j, recgen.DiffDumps(res.truths[j], d, root.ty))
+				if d != ref[j] {
+					report("partial-record", "record %d differs from the one of the complete stream at %s", j, recgen.DiffDumps(ref[j], d, root.ty))
 					bad = true
 					break
 				}
